@@ -482,7 +482,15 @@ func run(e *core.Env) {
 
 		case 8: // a build that must fail (message, switch block or appendix beyond the format's limits)
 			sbD, msgD, apxD := tp.Bytes(tp.Intn(40)), tp.Bytes(1+tp.Intn(300)), tp.Bytes(tp.Intn(40))
-			switch tp.Intn(4) {
+			switch tp.Intn(5) {
+			case 4: // beyond the largest pooled buffer (a peer's oversized field echoed in an error reply)
+				big := make([]byte, []int{65536, 66000, 70000, 200000}[tp.Intn(4)])
+				if tp.Chance(1, 2) {
+					msgD = big
+				} else {
+					apxD = big
+				}
+				e.Probe("build_beyond_the_largest_pooled_buffer")
 			case 0:
 				msgD = tp.Bytes(10001 + tp.Intn(300))
 			case 1:
